@@ -144,6 +144,7 @@ type seqStats struct {
 	non2xxContinue                                                  bool
 	gapsChecked, waitsChecked                                       int
 	ammoChecked, ammoPauseDiffers, ammoArgDiffers                   bool
+	size                                                            map[string]bool // classes of judged size assertions
 }
 
 // checkAmmo compares the scenario the provider handed to the gun for one invocation
@@ -227,7 +228,7 @@ func checkSeq(c Case, o *vf.Obs) error {
 		if def == nil {
 			return target.Resp{Status: 599, Body: []byte("request of no known definition")}
 		}
-		return toResp(c.reply(def, seq), c.faultAt(seq).Keep)
+		return toResp(c.reply(def, seq), c.faultAt(seq).Keep, c.chunkAt(seq))
 	}
 	res, err := runProgram(prog, shots, 1, c.KeepAlive, script)
 	if err != nil {
@@ -240,7 +241,7 @@ func checkSeq(c Case, o *vf.Obs) error {
 	for _, sc := range prog.Scenarios {
 		entryOf[sc.Expand()[0].Name] = sc.Name
 	}
-	st := seqStats{fails: map[string]bool{}, failPos: map[string]bool{}}
+	st := seqStats{fails: map[string]bool{}, failPos: map[string]bool{}, size: map[string]bool{}}
 	it := si.New(prog)
 	ri, sx := 0, 0
 	counts := map[string]int{}
@@ -336,9 +337,43 @@ func checkSeq(c Case, o *vf.Obs) error {
 			}
 			st.noValue = st.noValue || s.Req.NoValue
 			rep := c.reply(s.Def, ri)
+			chunked := c.chunkAt(ri) > 0 && !rep.Closed && !rep.Cut
 			lastAt = rec.At
 			ri++
 			out := in.Deliver(rep)
+			if !rep.Closed && !rep.Cut {
+				if chunked {
+					st.size["reply_chunked"] = true
+				}
+				for _, p := range s.Def.Posts {
+					if p.Kind != scengen.PostAssert || p.Size == nil {
+						continue
+					}
+					if d := len(rep.Body) - p.Size.Val; p.Size.Op != "=" && d > -20 && d < 20 {
+						return fmt.Errorf("harness error: %s: the body of %d bytes is too close to the threshold of size %s %d", where, len(rep.Body), p.Size.Op, p.Size.Val)
+					}
+					holds, _ := si.SizeHolds(*p.Size, len(rep.Body))
+					kind := "assert_size_with_body_patterns"
+					if len(p.BodyHas) == 0 {
+						kind = "assert_size_only" // no body patterns in the same assertion
+					}
+					verdict := "fails"
+					if holds {
+						verdict = "holds"
+					}
+					how := "content_length"
+					if chunked {
+						how = "chunked"
+					}
+					op := map[string]string{"<": "lt", ">": "gt", "=": "eq"}[p.Size.Op]
+					for _, k := range []string{kind, kind + "_" + verdict, kind + "_" + how, kind + "_" + how + "_" + verdict, kind + "_" + how + "_" + op + "_" + verdict} {
+						st.size[k] = true
+					}
+					if len(rep.Body) > 2048 {
+						st.size[kind+"_body_over_2k"] = true
+					}
+				}
+			}
 			if out.Kind == "extract" {
 				return fmt.Errorf("harness error: the generated program extracts what the reply does not hold (%s): %s", where, out.Msg)
 			}
@@ -352,6 +387,12 @@ func checkSeq(c Case, o *vf.Obs) error {
 					return fail("%s fails (%s: %s) but its sample #%d is not marked failed: %s", where, out.Kind, out.Msg, sx-1, sm)
 				}
 				st.fails[out.Kind] = true
+				if out.Kind == "assert" && strings.HasPrefix(out.Msg, "size ") {
+					st.fails["assert_size"] = true
+					if chunked {
+						st.fails["assert_size_chunked_reply"] = true
+					}
+				}
 				if out.Kind == "transport" {
 					bare := len(s.Def.Posts) == 0
 					if rep.Cut {
@@ -471,6 +512,10 @@ func checkSeq(c Case, o *vf.Obs) error {
 	for k := range st.fails {
 		o.Class("fail_" + k)
 	}
+	for k := range st.size {
+		o.Class(k)
+	}
+	o.ClassIf(len(c.Chunked) > 0, "target_answers_chunked_in_part")
 	for k := range st.failPos {
 		o.Class("fail_at_" + k + "_step")
 	}
@@ -511,7 +556,7 @@ func checkConcurrent(c Case, o *vf.Obs) error {
 			return target.Resp{Status: 599, Body: []byte("request of no known definition")}
 		}
 		fresh, num := freshOf(recKey(def, r))
-		return toResp(si.MakeReply(def, fresh+c.Salt, num, si.FaultNone, 0), 0)
+		return toResp(si.MakeReply(def, fresh+c.Salt, num, si.FaultNone, 0), 0, c.chunkAt(seq))
 	}
 	res, err := runProgram(prog, shots, c.Instances, c.KeepAlive, script)
 	if err != nil {
